@@ -36,7 +36,9 @@ CONSTANTS
                  \*       order is left to the implementation and checked against `edges`
   InitLeaves     \* sequence of [vec, rg] describing leaves that exist in the initial state
 
-AllOps == {"add", "mul", "sub", "neg", "sq", "clone", "sum", "idx", "stack", "unbind"}
+AllOps == {"add", "mul", "sub", "neg", "sq", "clone", "sum", "idx", "stack", "unbind", "gather"}
+\* gather: y = x[[i, j]] for the index pair number k (repeated and permuted indices)
+GatherIx(k) == << <<1, 1>>, <<2, 2>>, <<2, 1>> >>[k]
 
 VARIABLES
   tape,    \* Seq of node records
@@ -85,6 +87,7 @@ WellShaped(op, c1, c2, k) ==
   CASE op \in {"add", "mul", "sub"} -> k = 0
     [] op \in {"neg", "sq", "clone", "sum"} -> c2 = c1 /\ k = 0
     [] op = "idx"    -> c2 = c1 /\ tape[c1].vec /\ k \in 1..2
+    [] op = "gather" -> c2 = c1 /\ tape[c1].vec /\ k \in 1..3
     [] op = "unbind" -> c2 = c1 /\ tape[c1].vec /\ k = 0
     [] op = "stack"  -> ~tape[c1].vec /\ ~tape[c2].vec /\ k = 0
     [] OTHER -> FALSE
@@ -93,6 +96,7 @@ OutVec(op, c1, c2) ==
   CASE op \in {"add", "mul", "sub"} -> tape[c1].vec \/ tape[c2].vec
     [] op \in {"neg", "sq", "clone"} -> tape[c1].vec
     [] op = "stack" -> TRUE
+    [] op = "gather" -> TRUE
     [] OTHER -> FALSE
 
 OutVal(op, c1, c2, k) ==
@@ -105,6 +109,7 @@ OutVal(op, c1, c2, k) ==
     [] op = "clone" -> [e \in 1..sz |-> El(c1, e)]
     [] op = "sum"   -> IF tape[c1].vec THEN <<tape[c1].val[1] + tape[c1].val[2]>> ELSE <<tape[c1].val[1]>>
     [] op = "idx"   -> <<tape[c1].val[k]>>
+    [] op = "gather" -> <<tape[c1].val[GatherIx(k)[1]], tape[c1].val[GatherIx(k)[2]]>>
     [] op = "stack" -> <<tape[c1].val[1], tape[c2].val[1]>>
     [] op = "unbind" -> <<tape[c1].val[k]>>     \* k-th output
 
@@ -146,6 +151,7 @@ Dual(n) ==
          [] nd.op = "clone" -> [e \in 1..sz |-> AE(e)]
          [] nd.op = "sum"   -> IF tape[c1].vec THEN <<DAdd(A[1], A[2])>> ELSE <<A[1]>>
          [] nd.op = "idx"   -> <<A[nd.k]>>
+         [] nd.op = "gather" -> <<A[GatherIx(nd.k)[1]], A[GatherIx(nd.k)[2]]>>
          [] nd.op = "stack" -> <<A[1], B[1]>>
          [] nd.op = "unbind" -> <<A[nd.k]>>
 
@@ -181,6 +187,8 @@ LocalVJP(n, p, m) ==
        [] nd.op = "clone" -> m
        [] nd.op = "sum"   -> IF tape[c].vec THEN <<m[1], m[1]>> ELSE m
        [] nd.op = "idx"   -> [e \in 1..2 |-> IF e = nd.k THEN m[1] ELSE 0]
+       \* every position that read element e sends its message back to it: repeated indices ADD
+       [] nd.op = "gather" -> [e \in 1..2 |-> (IF GatherIx(nd.k)[1] = e THEN m[1] ELSE 0) + (IF GatherIx(nd.k)[2] = e THEN m[2] ELSE 0)]
        [] nd.op = "stack" -> <<m[p]>>
        [] nd.op = "unbind" -> [e \in 1..2 |-> IF e = nd.k THEN m[1] ELSE 0]
 
@@ -298,7 +306,9 @@ ZeroT(t) ==       \* Tensor.zero_()
 \* Module.zero_grad (parameters that require grad) / Optimizer.zero_grad (every parameter given)
 ZeroSet(kind) ==
   /\ "zeroset" \in Acts /\ CanAct /\ kind \in {"module", "optim"}
-  /\ LET S == {n \in Nodes : tape[n].op = "leaf" /\ tape[n].dt = "f" /\ (kind = "optim" \/ tape[n].rg)}
+  \* Optimizer.zero_grad: every parameter it was given; Module.zero_grad: every parameter that requires grad or still
+  \* holds a gradient (a frozen parameter that never had one does not acquire one)
+  /\ LET S == {n \in Nodes : tape[n].op = "leaf" /\ tape[n].dt = "f" /\ (kind = "optim" \/ tape[n].rg \/ grad[n].t # "none")}
      IN /\ S # {}
         /\ grad' = [n \in Nodes |-> IF n \in S THEN GZero ELSE grad[n]]
         /\ acc' = [n \in Nodes |-> IF n \in S THEN Zeros(Size(n)) ELSE acc[n]]
@@ -403,7 +413,7 @@ BackwardEnd ==
 -----------------------------------------------------------------------------
 Next ==
   \/ \E vec \in BOOLEAN, rgq \in BOOLEAN, dt \in {"f", "i"} : NewLeaf(vec, rgq, dt)
-  \/ \E op \in Ops, c1 \in Nodes, c2 \in Nodes, k \in 0..2 : Apply(op, c1, c2, k)
+  \/ \E op \in Ops, c1 \in Nodes, c2 \in Nodes, k \in 0..3 : Apply(op, c1, c2, k)
   \/ \E t \in Nodes, b \in BOOLEAN : SetRG(t, b)
   \/ \E t \in Nodes : RetainGrad(t) \/ Detach(t) \/ ZeroT(t)
   \/ \E kind \in {"module", "optim"} : ZeroSet(kind)
